@@ -128,6 +128,9 @@ def corrupt_saio(data: bytes, delta: int):
     return _put(data, b.fields["offsets_pos"], ">Q" if v1 else ">I", new), {"old": old, "new": new}
 
 
+MEDIA_HEADERS = {"vmhd", "smhd", "hmhd", "sthd", "nmhd"}
+
+
 def drop_box(data: bytes, path: str):
     """remove the first box matching `path`, fixing the 32-bit sizes of its ancestors"""
     boxes = mp4walk.walk(data)
@@ -135,7 +138,10 @@ def drop_box(data: bytes, path: str):
     chain = []
     cur = boxes
     for p in parts:
-        nxt = next((b for b in cur if b.type == p), None)
+        if p.startswith("*"):
+            nxt = next((b for b in cur if b.type.endswith(p[1:]) and b.type in MEDIA_HEADERS), None)
+        else:
+            nxt = next((b for b in cur if b.type == p), None)
         if nxt is None:
             raise CorruptionError(f"no {path}")
         chain.append(nxt)
@@ -148,7 +154,7 @@ def drop_box(data: bytes, path: str):
             raise CorruptionError("64-bit ancestor size")
         out[anc.start:anc.start + 4] = struct.pack(">I", sz - victim.size)
     del out[victim.start:victim.end]
-    return bytes(out), {"dropped": path, "size": victim.size}
+    return bytes(out), {"dropped": "/".join(b.type for b in chain), "size": victim.size}
 
 
 def _q(tag: str) -> str:
@@ -398,6 +404,9 @@ def snap_rep(rep) -> dict:
         "media": None if st is None else st.media,
         "timeline": tl, "frame_rate": fr,
         "target_us": None if rep.target_duration is None else _td_us(rep.target_duration),
+        "mime": rep.mimeType,
+        "inband": sorted({(ev.schemeIdUri, ev.value) for ev in list(rep.event_streams) + list(rep.parent.event_streams)
+                          if type(ev).__name__ == "InbandEventStream"}),
         "segments": [snap_segment(ms) for ms in rep.media_segments],
         "own_errors": _own_errors(rep),
         "init_errors": [] if init is None else _own_errors(init),
